@@ -1183,7 +1183,7 @@ func (fe *FnEnc) mergeMems(gs []string, ms []*Mem) *Mem {
 // (phi #rangeindex from -1, t = phi + 1, if t < L) and returns the implicit
 // invariant -1 <= rangeindex < L ("" if the header has no such phi).
 func (fe *FnEnc) rangeIndexInv(h *ssa.BasicBlock, over map[*ssa.Phi]Val) string {
-	if fe.s.mode != "int" {
+	if fe.s.mode != "int" || (fe.top.ct != nil && fe.top.ct.Panics == "off" && fe.top.ct.Opts["rangeindex"] != "on") {
 		return ""
 	}
 	for _, ins := range h.Instrs {
